@@ -26,6 +26,7 @@ KEEP_DTYPE_FUNCS = {"numpy.copy", "numpy.array", "numpy.asarray", "numpy.asanyar
                     "numpy.sort", "numpy.squeeze", "numpy.ravel", "numpy.ascontiguousarray", "numpy.transpose",
                     "numpy.reshape", "numpy.unique", "numpy.flip", "numpy.concatenate", "numpy.vstack", "numpy.hstack"}
 LIKE_FUNCS = {"numpy.zeros_like", "numpy.ones_like", "numpy.full_like", "numpy.empty_like"}
+CREATE_FUNCS = {"numpy.empty", "numpy.zeros", "numpy.ones", "numpy.full", "numpy.array", "numpy.asarray", "numpy.ndarray"}
 KEEP_DTYPE_METHODS = {"copy", "reshape", "flatten", "ravel", "squeeze", "transpose", "view"}
 FLOAT_FUNCS = {"numpy.sqrt", "numpy.exp", "numpy.log", "numpy.mean", "numpy.average", "numpy.linspace", "numpy.sin", "numpy.cos",
                "numpy.arcsin", "numpy.divide", "numpy.true_divide", "numpy.std", "numpy.var", "numpy.median", "numpy.interp",
@@ -119,6 +120,32 @@ def _caller_typed_params(project: Project, fi: FunctionInfo, stack):
     return typed
 
 
+_SELF_ATTR: Dict[tuple, bool] = {}
+
+
+def _self_attr_from_caller(project: Project, cls, attr: str) -> bool:
+    """some method of the class (or a base) does `self.<attr> = <a parameter, or a dtype-keeping copy/view of one>`"""
+    key = (id(project), cls.qualname, attr)
+    if key in _SELF_ATTR:
+        return _SELF_ATTR[key]
+    _SELF_ATTR[key] = False
+    out = False
+    for k in cls.mro(project):
+        for m in k.methods.values():
+            if not isinstance(m.node, (ast.FunctionDef, ast.AsyncFunctionDef)):
+                continue
+            rhs = [n.value for n in ast.walk(m.node) if isinstance(n, ast.Assign) and any(
+                isinstance(t, ast.Attribute) and isinstance(t.value, ast.Name) and t.value.id == "self" and t.attr == attr
+                for t in n.targets)]
+            if rhs and any(_analyse(project, m, m.node, probe=rhs)):
+                out = True
+                break
+        if out:
+            break
+    _SELF_ATTR[key] = out
+    return out
+
+
 def _analyse(project: Project, fi: FunctionInfo, f, only=None, probe=None) -> List[dict]:
     if not isinstance(f, (ast.FunctionDef, ast.AsyncFunctionDef)):
         return [] if probe is None else [True] * len(probe)
@@ -172,10 +199,22 @@ def _analyse(project: Project, fi: FunctionInfo, f, only=None, probe=None) -> Li
                 and e.attr not in ("shape", "size", "ndim", "dtype"):
             # an array held by an object the caller passed (`pl.values`): its dtype is the caller's as well
             return True
+        if isinstance(e, ast.Attribute) and isinstance(e.value, ast.Name) and e.value.id == "self" and fi.cls is not None \
+                and e.attr not in ("shape", "size", "ndim", "dtype") and probe is None:
+            # an array the object holds: the caller's when some method stores a parameter there as it came
+            return _self_attr_from_caller(project, fi.cls, e.attr)
         if isinstance(e, ast.Call):
             t = res(e.func)
             if t in KEEP_DTYPE_FUNCS | LIKE_FUNCS and e.args and not _has_dtype(e):
                 return is_inherited(e.args[0], depth + 1)
+            if t in CREATE_FUNCS and _has_dtype(e):
+                # np.empty(shape, dtype=x.dtype): the dtype of the caller's data, asked for by name
+                dt = [k.value for k in e.keywords if k.arg == "dtype"][0]
+                if isinstance(dt, ast.Attribute) and dt.attr == "dtype":
+                    return is_inherited(dt.value, depth + 1)
+                if isinstance(dt, ast.Name) and dt.id in defs and any(
+                        isinstance(v, ast.Attribute) and v.attr == "dtype" and is_inherited(v.value, depth + 1) for v in defs[dt.id]):
+                    return True
             if isinstance(e.func, ast.Attribute) and e.func.attr in KEEP_DTYPE_METHODS and t is None:
                 return is_inherited(e.func.value, depth + 1)
         return False
@@ -207,6 +246,9 @@ def _analyse(project: Project, fi: FunctionInfo, f, only=None, probe=None) -> Li
             return False
         if isinstance(e, ast.IfExp):
             return is_float(e.body, depth + 1) and is_float(e.orelse, depth + 1)
+        if isinstance(e, ast.Subscript):
+            # a part of a floating-point array
+            return is_float(e.value, depth + 1)
         return False
 
     changed = True
@@ -221,9 +263,16 @@ def _analyse(project: Project, fi: FunctionInfo, f, only=None, probe=None) -> Li
             if nme not in inherited and any(is_inherited(v) for v in vs):
                 inherited.add(nme)
                 changed = True
-            if nme not in floaty and vs and all(v is not None and is_float(v) for v in vs) and nme not in array_params:
-                floaty.add(nme)
-                changed = True
+            if nme not in floaty and vs and nme not in array_params and all(v is not None for v in vs):
+                # `x = np.linspace(...); x = x[:n]`: a definition in terms of the name itself keeps what the others give
+                selfref = [v for v in vs if any(isinstance(y, ast.Name) and y.id == nme for y in ast.walk(v))]
+                base = [v for v in vs if v not in selfref]
+                if base and all(is_float(v) for v in base):
+                    floaty.add(nme)
+                    if all(is_float(v) for v in selfref):
+                        changed = True
+                    else:
+                        floaty.discard(nme)
     # a name that is re-bound to something of explicit dtype everywhere is not inherited (e.g. x = x.astype(float))
     for nme, vs in defs.items():
         if nme in inherited and nme not in array_params and not any(is_inherited(v) for v in vs):
